@@ -12,6 +12,7 @@ MODULES = {
     "C05": "harness.c05_tournament",
     "C04": "harness.c04_preserve",
     "C03": "harness.c03_arch",
+    "C14": "harness.c14_actions",
 }
 
 TECH = "symbolic execution of the real Python functions on z3-backed proxies (re-execution path exploration); each obligation decided per path by z3 as pc ∧ assumptions ∧ ¬obligation; sat models replayed on the real code"
@@ -63,6 +64,11 @@ CLAIMED = {
         "level_note": NOTE + "; Rainbow's loss algebra is C18; weights on real networks are concrete seeded values (symbolic weights only on stub networks); chaining of soft updates is by induction over the one-step identity",
         "technique": TECH,
     },
+    "C14": {
+        "level_text": "bounded symbolic verification of the real action selection of DQN (get_action/_get_action), CQN, RainbowDQN (numpy masked arg-max path), DDPG, TD3 (noise + clip), PPO (evaluation-mode clip / squashed policy) and DeterministicActor.rescale_action on real agents with stub policy networks: for all network outputs (ties included), masks with >= 1 legal action, epsilon in [0,1], every uniform draw in [0,1) and all exploration noise at batch<=2(3), actions<=3(4), 2-3 action dims with asymmetric per-dimension bounds: the action has the batch shape, is a valid index whose mask bit is 1, is a best allowed action when exploration is off (epsilon 0 / training False), lies inside [low,high] for the continuous learners and evaluation-mode PPO, and rescale_action is the affine image of the activation range",
+        "level_note": NOTE + "; that a real network's output activation delivers the assumed range, MADDPG/MATD3/IPPO/bandit action selection and MultiDiscrete/MultiBinary sampling (C16) are outside this check",
+        "technique": TECH,
+    },
     "C17": {
         "level_text": "bounded symbolic verification of the real PPO.learn / IPPO.learn up to the minibatch loop: for all rewards, values, done flags, bootstrap values, log-probs, gamma, lambda at rollout shapes T<=3(5), envs<=2(3), agents<=2(3), the flattened rows handed to the minibatch loop carry, for every (agent, step, env), that triple's observation, action, old log-prob, old value and the GAE advantage/return defined by the statement's recursion (up to a permutation of rows)",
         "level_note": NOTE,
@@ -79,4 +85,4 @@ NOT_APPLICABLE = {
 
 # designed in DESIGN.md §5 but the check is not built/registered yet (moves to CLAIMED when it lands)
 PENDING = {pid: "solver-based check designed (DESIGN.md §5) but not yet built in this tree; not claimed until it is"
-           for pid in ["C12", "C13", "C14", "C15", "C16", "C19"]}
+           for pid in ["C12", "C13", "C15", "C16", "C19"]}
